@@ -59,26 +59,11 @@ def error_discipline(ctx, keys, rid="R2"):
                    loc=bad[0][0].line() if bad else None)
 
 
-def rules(ctx):
-    keys = swap_apply_keys(ctx)
-    o = ctx.ob("R1.swap-impls", "T8", SWAP_TRAIT, "the four Swap::apply implementations are found")
-    ctx.decide(o, len(keys) >= 4, ", ".join(k.split("::")[-3].split(" ")[0] for k in keys), "only %d Swap::apply impls found" % len(keys))
-    o = ctx.ob("R1.apply-takes-shared-ref", "T6", SWAP_TRAIT, "every Swap::apply receives the base schedule as &Schedule")
-    bad = []
-    for k in keys:
-        s = ctx.prog.sigs.get(k)
-        tk = s["inputs"][1] if s and len(s["inputs"]) > 1 else {}
-        if not (tk.get("k") == "ref" and not tk.get("m") and tk.get("t", {}).get("p") == SCHEDULE):
-            bad.append(k)
-    ctx.decide(o, not bad, "%d impls, all (&self, &Schedule)" % len(keys), "apply does not take &Schedule in: %s" % bad)
-    purity.no_public_mutators(ctx, "R1.no-public-mutators")
-    purity.no_interior_mutability(ctx, "R1.no-interior-mutability")
-    purity.no_global_state(ctx, "R1.no-global-state")
-    purity.no_unsafe(ctx, "R1.no-unsafe")
-    error_discipline(ctx, keys + [SWAPS + "::improve_depot_and_recompute_transitions"])
+def path_exchange_filters_vehicles(ctx, rid="R2"):
+    """shared with C06: improve_depots panics on a vehicle id that is not a real vehicle"""
     PE = "<%s::path_exchange::PathExchange as %s>::apply" % (SWAPS, SWAP_TRAIT)
     IDR = SWAPS + "::improve_depot_and_recompute_transitions"
-    o, fdp = ctx.require_fn("R2.path-exchange-filters-vehicles", "T1", PE,
+    o, fdp = ctx.require_fn("%s.path-exchange-filters-vehicles" % rid, "T1", PE,
                             "PathExchange hands to improve_depots only vehicles that are real in the schedule it hands over (improve_depots panics otherwise)")
     if fdp is not None:
         cs = calls_to(fdp, IDR)
@@ -98,6 +83,26 @@ def rules(ctx):
         ctx.decide(o, ok, "the list is retained by is_vehicle of the schedule that is handed over",
                    "the vehicle list is not filtered by is_vehicle of the resulting schedule: a provider that became a dummy tour is handed to "
                    "improve_depots, which panics on non-vehicles")
+
+
+def rules(ctx):
+    keys = swap_apply_keys(ctx)
+    o = ctx.ob("R1.swap-impls", "T8", SWAP_TRAIT, "the four Swap::apply implementations are found")
+    ctx.decide(o, len(keys) >= 4, ", ".join(k.split("::")[-3].split(" ")[0] for k in keys), "only %d Swap::apply impls found" % len(keys))
+    o = ctx.ob("R1.apply-takes-shared-ref", "T6", SWAP_TRAIT, "every Swap::apply receives the base schedule as &Schedule")
+    bad = []
+    for k in keys:
+        s = ctx.prog.sigs.get(k)
+        tk = s["inputs"][1] if s and len(s["inputs"]) > 1 else {}
+        if not (tk.get("k") == "ref" and not tk.get("m") and tk.get("t", {}).get("p") == SCHEDULE):
+            bad.append(k)
+    ctx.decide(o, not bad, "%d impls, all (&self, &Schedule)" % len(keys), "apply does not take &Schedule in: %s" % bad)
+    purity.no_public_mutators(ctx, "R1.no-public-mutators")
+    purity.no_interior_mutability(ctx, "R1.no-interior-mutability")
+    purity.no_global_state(ctx, "R1.no-global-state")
+    purity.no_unsafe(ctx, "R1.no-unsafe")
+    error_discipline(ctx, keys + [SWAPS + "::improve_depot_and_recompute_transitions"])
+    path_exchange_filters_vehicles(ctx)
     # R3: candidates only through the modification API
     common.who_may_call(ctx, "R3.schedule-new-callers", S("new"), [SCHEDULE + "::"],
                         "Schedule::new (trusted constructor) is called only inside impl Schedule", floor=12)
@@ -116,6 +121,11 @@ def rules(ctx):
     growth_guards(ctx)
     for ob in ctx.obligations[before:]:
         ob.id = ob.id.replace("C11/R", "C11/R4.formations.R")
+    from .C02 import depot_limits
+    before = len(ctx.obligations)
+    depot_limits(ctx)      # a candidate is a valid schedule: depot capacity is tested on the usage the candidate will have
+    for ob in ctx.obligations[before:]:
+        ob.id = ob.id.replace("C11/R", "C11/R4.depots.R")
     o = ctx.ob("R3.swaps-return-api-results", "T1", SWAP_TRAIT, "each swap's candidate comes out of the schedule modification API")
     bad = []
     for k in keys:
